@@ -57,6 +57,7 @@ def generate(ctx, escalate=False):
     out = []
     for i in range(n):
         proto = rng.choice(["udp", "udp", "tcp", "ws"])
+        wire = {"udp": "dtls", "tcp": "tls", "ws": "wss"}[proto] if rng.random() < 0.15 else proto   # secured names: same framing (D17)
         c = rng.random()
         if c < 0.08:
             b = G.rbytes(rng, rng.choice([0, 1, 2, 3, 4, 5, 6, 8, 12, 20]))
@@ -69,7 +70,7 @@ def generate(ctx, escalate=False):
             if c < 0.55:
                 for _ in range(rng.choice([1, 1, 1, 2, 3])):
                     b = G.mutate(rng, b)
-        out.append("parse %s %s" % (proto, hx(b)))
+        out.append("parse %s %s" % (wire, hx(b)))
     return out
 
 
